@@ -1062,7 +1062,8 @@ pub fn check_history(hist: &Hist, rep: &mut Report) {
         }
         rep.add("ho_batches_kept", kept);
         rep.add("ho_batches_applied", applied);
-        if kept != applied || kept_keys != applied_keys {
+        // (the worker may record several kept batches in one go: the look-ups must all arrive, not batch by batch)
+        if kept_keys != applied_keys {
             rep.violate("C15", "batch/kept-not-applied", format!("{kept} batches ({kept_keys} keys) kept, {applied} ({applied_keys}) applied by the policy worker at quiescence"), json!({"history": d}));
         }
     }
